@@ -6,7 +6,7 @@
    connection run), exercised against the in-process server by the harness, not modelled
    further.  "Acknowledged" is the client's view (ack processed). *)
 From Coq Require Import List ZArith Bool Arith.
-From TD Require Import Model.ClientRetry Proof.ClientRetry.
+From TD Require Import Model.ClientRetry Proof.ClientRetry Model.ClientRetryN Proof.ClientRetryN.
 From TD Require Model.Rpc.
 Import ListNotations.
 
@@ -146,6 +146,79 @@ Theorem C29_retry_split_snapshot_loses_wakeup :
     step st EWakeClosed = None /\ step st EWakeCtx = None /\ step st EReplace = None /\ step st EStart = None.
 Proof. exact split_snapshot_state_is_stuck. Qed.
 Print Assumptions C29_retry_split_snapshot_loses_wakeup.
+
+(* ---- one or more requests in flight (Model/ClientRetryN.v): N invocations share the
+   connection generations, the pause and the close; events of invocation i are its own steps
+   (including the delivery of ITS ack / result and ITS caller cancelling), environment events
+   hit everybody.  For ALL interleavings: ---- *)
+
+(* every invocation of a joint run goes through a run of the single-invocation model over its
+   own events and the environment events: all theorems above apply to each invocation *)
+Theorem C29N_each_invocation_is_a_single_run :
+  forall n mes ms i, mrun (minit n) mes = Some ms -> i < n ->
+    exists s, nth_error ms i = Some s /\ run init (proj i mes) = Some s.
+Proof. exact proj_reachable. Qed.
+Print Assumptions C29N_each_invocation_is_a_single_run.
+
+(* independence: a step of invocation i does not change the state of any other invocation *)
+Theorem C29N_independence :
+  forall ms i e ms' j, step_nth ms i e = Some ms' -> j <> i -> nth_error ms' j = nth_error ms j.
+Proof. exact step_nth_other. Qed.
+Print Assumptions C29N_independence.
+
+(* ... and the only thing they share is the environment, which they all see alike *)
+Theorem C29N_shared_environment :
+  forall n mes ms, mrun (minit n) mes = Some ms ->
+    forall i j s t, nth_error ms i = Some s -> nth_error ms j = Some t -> env_of s = env_of t.
+Proof. exact env_shared. Qed.
+Print Assumptions C29N_shared_environment.
+
+Theorem C29N_retry_acked_never_resent :
+  forall n mes1 mes2 ms1 ms2 i s1 s2,
+    mrun (minit n) mes1 = Some ms1 -> mrun ms1 mes2 = Some ms2 -> i < n ->
+    nth_error ms1 i = Some s1 -> nth_error ms2 i = Some s2 -> acked s1 = true ->
+    nsends s2 = nsends s1 /\ acked s2 = true /\ ackphase (ph s2).
+Proof. exact n_acked_never_resent. Qed.
+Print Assumptions C29N_retry_acked_never_resent.
+
+Theorem C29N_retry_one_execution_per_generation :
+  forall n mes ms i s, mrun (minit n) mes = Some ms -> i < n -> nth_error ms i = Some s -> nsends s <= S (cur_gen s).
+Proof. exact n_sends_bounded. Qed.
+Print Assumptions C29N_retry_one_execution_per_generation.
+
+Theorem C29N_retry_open_returns_result_or_acked_error :
+  forall n mes ms i s r,
+    mrun (minit n) mes = Some ms -> i < n -> nth_error ms i = Some s ->
+    ph s = Returned r -> closed s = false -> cancelled s = false ->
+    (exists v, r = RRes v) \/ (r = RErrAcked /\ acked s = true).
+Proof. exact n_open_returns. Qed.
+Print Assumptions C29N_retry_open_returns_result_or_acked_error.
+
+Theorem C29N_retry_waits_only_on_dead_connection :
+  forall n mes ms i s g, mrun (minit n) mes = Some ms -> i < n -> nth_error ms i = Some s -> ph s = Waiting g ->
+    is_dead s g = true /\ g <= cur_gen s.
+Proof. exact n_waits_only_on_dead. Qed.
+Print Assumptions C29N_retry_waits_only_on_dead_connection.
+
+Theorem C29N_partial_after_close :
+  forall n mes ms i s pw,
+    mrun (minit n) mes = Some ms -> i < n -> nth_error ms i = Some s -> closed s = true ->
+    returned (run_own pw 6 s) = true \/
+    (paused (run_own pw 6 s) = true /\
+     exists s2, step (run_own pw 6 s) EStart = Some s2 /\ returned (run_own pw 6 s2) = true).
+Proof. exact n_closed_partial. Qed.
+Print Assumptions C29N_partial_after_close.
+
+(* non-vacuity: two requests in flight, the connection dies after the first was acknowledged and
+   the second only sent: the first gets the connection-lost error (1 execution), the second is
+   re-sent on the replacement and answered (2 executions) *)
+Example C29N_two_in_flight :
+  exists ms, mrun (minit 2)
+    [MOwn 0 ESnapshot; MOwn 1 ESnapshot; MOwn 0 ESend; MOwn 1 ESend; MOwn 0 EAck; MEnv (EKill 0);
+     MOwn 0 EObserveDead; MOwn 1 EObserveDead; MEnv EReplace; MEnv EStart; MOwn 1 EWake; MOwn 1 ESnapshot;
+     MOwn 1 ESend; MOwn 1 (EResult 7)] = Some ms /\
+    map (fun s => (ph s, nsends s)) ms = [(Returned RErrAcked, 1); (Returned (RRes 7), 2)].
+Proof. eexists. vm_compute. split; reflexivity. Qed.
 
 (* non-vacuity: states of each hypothesis shape are reachable *)
 Example C29_shapes_reachable :
